@@ -42,6 +42,10 @@ QUICK_RUNS = {
     "C06": 30000,
     "C07": 30000,
     "C14": 30000,
+    "C08": 30000,
+    "C09": 30000,
+    "C10": 30000,
+    "C11": 30000,
 }
 THOROUGH_BATCH = 24000
 MAX_REPORT = 4
@@ -84,6 +88,8 @@ def replay_file(path: str, prop: str, quiet: bool = False) -> int:
         print("NOT-REPRODUCED")
         return 0
     plan = rec["plan"]
+    for p in rec.get("prelude") or ():
+        runner.execute(p)
     res = runner.execute(plan, want_digest=True)
     rel = runner.relevant(res["violations"], prop)
     hit = [x for x in rel if x["rule"] == rec.get("rule") and x["key"] == rec.get("key")]
@@ -96,6 +102,14 @@ def replay_file(path: str, prop: str, quiet: bool = False) -> int:
         return 1
     print("NOT-REPRODUCED")
     return 0
+
+
+def _exec_full(seq: list) -> dict:
+    res: dict = {}
+    for p in seq[:-1]:
+        runner.execute(p)
+    res = runner.execute(seq[-1], want_digest=True, want_trace=True)
+    return res
 
 
 def fresh_replay(path: str, prop: str) -> tuple[int, str]:
@@ -235,13 +249,47 @@ def main() -> int:
         rec = recs[0]
         plan = rec["plan"]
 
-        def still_fails(cand: dict, rule: str = rule, key: str = key) -> bool:
-            r = runner.execute(cand)
+        def fails(seq: list, rule: str = rule, key: str = key) -> bool:
+            """Hermetic: a child forked from this pristine process runs the sequence."""
+            r = runner.hermetic(runner.execute_sequence, seq)
             return any(x["rule"] == rule and x["key"] == key for x in r["violations"])
 
+        prelude: list = []
+        if not fails([plan]):
+            # the violation depends on process-global state left behind by earlier runs of
+            # the same chunk: reproduce it with a prelude of those plans, then minimise it
+            idx = plan["_prov"]["index"]
+            prelude = [
+                runner.make_plan(plan["_prov"]["verif_seed"], prop, plan["_prov"]["tier"], i)
+                for i in range(rec["chunk_start"], idx)
+            ]
+            if not fails(prelude + [plan]):
+                print(
+                    f"HARNESS-ERROR property={prop} violation {rule}/{key} at index {idx} does not reproduce in a "
+                    f"fresh process even with its chunk prelude ({len(prelude)} runs)"
+                )
+                return 3
+            # ddmin on the prelude
+            chunk = max(1, len(prelude) // 2)
+            t_end = time.time() + 60
+            while chunk >= 1 and prelude and time.time() < t_end:
+                i = 0
+                while i < len(prelude) and time.time() < t_end:
+                    cand = prelude[:i] + prelude[i + chunk :]
+                    if fails(cand + [plan]):
+                        prelude = cand
+                    else:
+                        i += chunk
+                if chunk == 1:
+                    break
+                chunk //= 2
+
+        def still_fails(cand: dict) -> bool:
+            return fails(prelude + [cand])
+
         w = runner.world(prop, plan["world"])
-        small, used = shrink(plan, still_fails, simplest=getattr(w, "SIMPLEST", None))
-        res = runner.execute(small, want_digest=True)
+        small, used = shrink(plan, still_fails, simplest=getattr(w, "SIMPLEST", None), max_runs=300 if not prelude else 60)
+        res = runner.hermetic(_exec_full, prelude + [small])
         msg = next((x["msg"] for x in res["violations"] if x["rule"] == rule and x["key"] == key), rec["msg"])
         os.makedirs(os.path.join(HERE, "replays", prop), exist_ok=True)
         path = os.path.join(
@@ -256,9 +304,11 @@ def main() -> int:
                     "msg": msg,
                     "digest": res["digest"],
                     "plan": small,
+                    "prelude": prelude,
+                    "prelude_note": "plans executed first in the same process (the violation depends on process-global state they leave behind)" if prelude else None,
                     "shrink_runs": used,
                     "original_plan": plan,
-                    "trace": runner.execute(small, want_trace=True).get("trace"),
+                    "trace": res.get("trace"),
                 },
                 f,
                 indent=1,
